@@ -9,6 +9,10 @@ CHECKS = {
          "Every workload of up to N packets (gaps incl. same-step/same-instant/coinciding with transmission ends) over 6 schedulers x tables x rates x flow-to-class maps is executed on the real code; departure instants, per-flow order, counters after every kernel step and Monitor samples are compared with an exact reference. Complete within the stated bounds, nothing sampled.",
          "bounds: N<=3/4 packets full menu, N<=4/5 reduced; dyadic rates/sizes so float arithmetic is exact; reference model in harness/sched.py is trusted",
          "DESIGN.md 3 C12"),
+ "C08": ("exhaustive enumeration of arrival workloads through every element, every ordered pair of elements, demux fan-outs and generator->element->sink pipelines; per-stage packet ledger by object identity",
+         "Every workload of up to N packets is pushed through each of 15 single elements, all 169 ordered chains of 13 single-output elements, FlowDemux/FIBDemux/switch/splitter/hub configurations and two-generator pipelines; at exhaustion every packet handed to a stage is forwarded exactly once as the same object with unchanged identifying fields, or discarded by that stage's counted/owned rule; per-flow order, DistPacketGenerator's emission law and PacketSink's bookkeeping are compared with the ledger.",
+         "bounds: N<=3/4 per workload, 2 flows (+1 unrouted), sizes {1,2}; wire-loss and generator draws are harness-owned menus",
+         "DESIGN.md 3 C08"),
  "C09": ("exhaustive enumeration of arrival workloads x (rate, qlimit, mode) against the real Port/PortMonitor/REDPort; exact FIFO-with-occupancy reference; RED decided as a function of harness-owned draws",
          "Every workload of up to N packets for every rate in {0,8,16} and qlimit in None/bytes/packets is executed on the real Port: each drop decision, departure instant, byte_size after every kernel step, per-hop stamp and PortMonitor sample is compared with the reference. REDPort: the EWMA and the three-region decision are checked for four draws around the curve value at every arrival. Complete within the bounds.",
          "bounds: N<=4/5; sizes {1,2,3}; RED thresholds (1,2),(1,3), qlimit {3,4}, weight {0,1}, max_p {.5,1}; same-instant 'waiting vs in transmission' is forked (see assumptions in evidence)",
@@ -33,6 +37,10 @@ CHECKS = {
          "Every workload of up to N packets (sizes below/at/above the quanta) and static backlogs is executed on the real DRR, RR and WRR; the departure order must be explained by some run of the cyclic-visit automaton, DRR credits at settled points must match it and stay in [0, Q+Lmax), and the fairness bound is evaluated over every interval in which two classes stay backlogged.",
          "bounds: DRR N<=3/4 full menu, 4/5 reduced, backlogs 6/8; RR/WRR N<=4/5, bursts to 7/9; pointer position after idle and same-instant visibility are forked, so only orders no admissible run explains are reported",
          "DESIGN.md 3 C15"),
+ "C18": ("complete enumeration of small configuration grids against the real demuxes/switches/hub/splitters; exhaustive enumeration of every flow the owned sample() can generate on FatTree(2), FatTree(4), with FIB walk and end-to-end simulation",
+         "All FlowDemux/FIBDemux tables, output lists, end maps and flows of the stated grids, all hub populations/construction styles/senders and all splitter connection patterns are executed; FatTree structure is checked for k<=8/12; every (src,dst,shortest path) choice for k=2 and k=4 (848) with and without tcp has its generated FIB walked hop by hop and is simulated with bare FIBDemux+Port nodes and with FairPacketSwitch(WFQ) nodes whose flows share one class; flow pairs sharing a directed link are simulated.",
+         "bounds: grids as listed in the evidence rule; k=4 pairs: first flow among the first 16 (quick) / all 240 endpoint choices (thorough); networkx trusted for graph bookkeeping",
+         "DESIGN.md 3 C18"),
 }
 ALL = ["C%02d" % i for i in range(1, 21)]
 def main():
